@@ -307,6 +307,10 @@ func (s *Sim) wrongTargetConn() {
 		s.doConnConfirm(c.x, c.a, "confirm-loser")
 		return
 	}
+	if ms := s.misdirected(true); len(ms) > 0 && s.R.Chance(1, 3) {
+		s.run(kit.Pick(s.R, ms), "ack-with-siblings-answer")
+		return
+	}
 	x := kit.Pick(s.R, s.chains)
 	ids := sortedConnIDs(x.cur())
 	var y *chainSt
@@ -343,6 +347,10 @@ func (s *Sim) wrongTargetChan() {
 	if ls := s.losers(false); len(ls) > 0 && s.R.Chance(1, 3) {
 		c := kit.Pick(s.R, ls)
 		s.doChanConfirm(c.x, c.a, "confirm-loser")
+		return
+	}
+	if ms := s.misdirected(false); len(ms) > 0 && s.R.Chance(1, 3) {
+		s.run(kit.Pick(s.R, ms), "ack-with-siblings-answer")
 		return
 	}
 	x := kit.Pick(s.R, s.chains)
@@ -427,6 +435,105 @@ func (s *Sim) losers(conn bool) []cand {
 		}
 	}
 	return out
+}
+
+// misdirected lists (INIT end A of x, TRYOPEN end T of y) where T answers a *sibling* of A (another end of x over the same
+// clients / connection and port): a hostile relayer acknowledges A with a perfectly valid proof of T.
+func (s *Sim) misdirected(conn bool) []cand {
+	var out []cand
+	for _, x := range s.chains {
+		cur := x.cur()
+		if conn {
+			for _, id := range sortedConnIDs(cur) {
+				A := cur.conns[id]
+				y := s.connTarget(x, A)
+				if y == nil || A.State != connectiontypes.INIT {
+					continue
+				}
+				for _, tid := range sortedConnIDs(y.cur()) {
+					T := y.cur().conns[tid]
+					if T.State == connectiontypes.TRYOPEN && T.Counterparty.ConnectionId != id && T.ClientId == A.Counterparty.ClientId && T.Counterparty.ClientId == A.ClientId {
+						out = append(out, cand{kind: "conn_ack", x: x, y: y, a: id, t: tid})
+					}
+				}
+			}
+			continue
+		}
+		for _, k := range sortedChanKeys(cur) {
+			A := cur.chans[k]
+			y, cn, ok := s.chanTarget(x, cur, A)
+			if !ok || A.State != channeltypes.INIT {
+				continue
+			}
+			port, id := splitChanKey(k)
+			for _, tk := range sortedChanKeys(y.cur()) {
+				T := y.cur().chans[tk]
+				tp, _ := splitChanKey(tk)
+				if T.State == channeltypes.TRYOPEN && tp == A.Counterparty.PortId && T.Counterparty.PortId == port && T.Counterparty.ChannelId != id &&
+					len(T.ConnectionHops) == 1 && T.ConnectionHops[0] == cn.Counterparty.ConnectionId {
+					out = append(out, cand{kind: "chan_ack", x: x, y: y, a: k, t: tk})
+				}
+			}
+		}
+	}
+	return out
+}
+
+// siblingsConn: two INIT ends on one chain over the same clients, one of them answered; the other is acknowledged with the
+// proof of the answer to its sibling (then everything proceeds honestly).
+func (s *Sim) siblingsConn() {
+	x, cid, cpid := s.randomLinkSide()
+	before := sortedConnIDs(x.cur())
+	if !s.doConnInit(x, cid, cpid, "").OK() {
+		return
+	}
+	a := newID(before, sortedConnIDs(x.cur()))
+	before = sortedConnIDs(x.cur())
+	if !s.doConnInit(x, cid, cpid, "").OK() {
+		return
+	}
+	b := newID(before, sortedConnIDs(x.cur()))
+	if a == "" || b == "" {
+		return
+	}
+	y := s.chains[x.clientTarget[cid]]
+	s.doConnTry(y, x, kit.Pick(s.R, []string{a, b}), "")
+	s.C.Inc("sibling_scenarios")
+	for _, c := range s.misdirected(true) {
+		if c.x == x && (c.a == a || c.a == b) {
+			s.run(c, "ack-with-siblings-answer")
+		}
+	}
+}
+
+func (s *Sim) siblingsChan() {
+	cs := s.connsFor(false)
+	if len(cs) == 0 {
+		return
+	}
+	c := kit.Pick(s.R, cs)
+	port, cpPort, order, version := s.chanInitParams()
+	before := sortedChanKeys(c.x.cur())
+	if !s.doChanInit(c.x, c.id, port, cpPort, order, version, "").OK() {
+		return
+	}
+	a := newID(before, sortedChanKeys(c.x.cur()))
+	before = sortedChanKeys(c.x.cur())
+	if !s.doChanInit(c.x, c.id, port, cpPort, order, version, "").OK() {
+		return
+	}
+	b := newID(before, sortedChanKeys(c.x.cur()))
+	if a == "" || b == "" {
+		return
+	}
+	ycn := c.x.cur().conns[c.id].Counterparty.ConnectionId
+	s.doChanTry(c.y, c.x, kit.Pick(s.R, []string{a, b}), ycn, "")
+	s.C.Inc("sibling_scenarios")
+	for _, cd := range s.misdirected(false) {
+		if cd.x == c.x && (cd.a == a || cd.a == b) {
+			s.run(cd, "ack-with-siblings-answer")
+		}
+	}
 }
 
 // raceConn: one INIT end is answered by two Trys, acknowledges one of them, then both TRYOPEN ends ask for confirmation.
@@ -535,9 +642,12 @@ func (s *Sim) stepConn(p Profile) {
 			s.connInit("")
 		}
 	case roll < p.Init+p.Crossing:
-		if s.R.Chance(1, 3) {
+		switch s.R.Intn(4) {
+		case 0:
 			s.raceConn()
-		} else {
+		case 1:
+			s.siblingsConn()
+		default:
 			s.crossingConnInit()
 		}
 	case roll < p.Init+p.Crossing+p.Honest:
@@ -570,9 +680,12 @@ func (s *Sim) stepChan(p Profile) {
 			s.chanInit("")
 		}
 	case roll < p.Init+p.Crossing:
-		if s.R.Chance(1, 3) {
+		switch s.R.Intn(4) {
+		case 0:
 			s.raceChan()
-		} else {
+		case 1:
+			s.siblingsChan()
+		default:
 			s.crossingChanInit()
 		}
 	case roll < p.Init+p.Crossing+p.Honest:
